@@ -107,7 +107,9 @@ def solver_case(rep, spec, index):
     yq = Composition(p=rng.uniform(0.02, 0.98), type="weight")
     sda, da = _guard(lambda: pv.get_partial_fluxes_from_permeate_composition(fc.p1, fc.p2, yq, fc.comp, fc.t_feed, fc.tp, fc.pp, fc.model))
     sdb, db = _guard(lambda: pv.get_partial_fluxes_from_permeate_composition(fc.p1, fc.p2, yq, xm, fc.t_feed, fc.tp, fc.pp, fc.model))
-    if sda == "ok" and sdb == "ok":
+    if sda == "ok" and sdb == "ok" and not all(math.isfinite(float(v)) for v in list(da) + list(db)):
+        rep.count("direct_call_nonfinite_fluxes_not_judged")  # overflow of the activity model at the permeate temperature (see C02)
+    elif sda == "ok" and sdb == "ok":
         try:
             _, pf, perm = c02.ref_fluxes(fc, yq.p, fc.p1.value, fc.p2.value)
             for i in (0, 1):
